@@ -586,3 +586,78 @@ def checks(tier):
                       "from there on by non-NUL bytes, at 8 positions relative to the name (start, inside, around the 4095th byte, "
                       "end, padding); read under a 5 s watchdog", outside="other positions; several long names", tiers=q),
     ]
+
+
+# ---------------------------------------------------------------------------------------------
+# (g) decompression bombs: an entry that declares a small size but inflates to much more is refused without inflating it
+_b04g = checks
+
+
+def h_inflate_bomb(eng, how="lookup"):
+    import binascii
+    import hashlib
+    import struct
+    import tracemalloc
+    from dulwich.pack import write_pack_index_v2
+    declared = [0, 1, 100][eng.choice("declared_size", 3)]
+    actual = [1 << 20, 16 << 20, 48 << 20][eng.choice("inflated_size", 3)]
+    stream = zlib.compress(b"\0" * actual, 9)
+    c = (3 << 4) | (declared & 0x0F)
+    size = declared >> 4
+    hdr = bytearray()
+    while size:
+        hdr.append(c | 0x80)
+        c = size & 0x7F
+        size >>= 7
+    hdr.append(c)
+    good = Blob.from_string(b"good\n")
+    e_good = bytes([(3 << 4) | 5]) + zlib.compress(b"good\n")
+    e_bomb = bytes(hdr) + stream
+    body = b"PACK" + struct.pack(">LL", 2, 2) + e_good + e_bomb
+    pack = body + hashlib.sha1(body).digest()
+    name = hashlib.sha1(b"bomb").digest()
+    d = scratch("c04g")
+    try:
+        r = Repo.init_bare(d)
+        tag = f"[{how}: entry declares {declared} bytes, inflates to {actual >> 20} MiB from a {len(stream)}-byte stream]"
+        tracemalloc.start()
+        tracemalloc.reset_peak()
+        base = tracemalloc.get_traced_memory()[0]
+        err = None
+        try:
+            if how == "lookup":
+                pdir = os.path.join(d, "objects", "pack")
+                stem = os.path.join(pdir, "pack-" + hashlib.sha1(pack).hexdigest())
+                with open(stem + ".pack", "wb") as f:
+                    f.write(pack)
+                ents = sorted([(binascii.unhexlify(good.id), 12, binascii.crc32(e_good) & 0xFFFFFFFF),
+                               (name, 12 + len(e_good), binascii.crc32(e_bomb) & 0xFFFFFFFF)])
+                with open(stem + ".idx", "wb") as f:
+                    write_pack_index_v2(f, ents, hashlib.sha1(body).digest())
+                r.object_store.get_raw(binascii.hexlify(name))
+            else:
+                _ingest(r.object_store, pack, how)
+        except Exception as e:
+            err = f"{type(e).__name__}: {e}"           # keep no traceback: its frames hold views into the pack's mmap
+        peak = tracemalloc.get_traced_memory()[1] - base
+        tracemalloc.stop()
+        eng.prove(err is not None, f"{tag} the entry is refused")
+        eng.prove(peak < (6 << 20), f"{tag} memory used stays in proportion to the data supplied (peak {peak >> 20} MiB)")
+        if how != "lookup":
+            eng.prove(not [f for f in _packdir(d) if not f.endswith(".keep")] and _visible(r.object_store) == [],
+                      f"{tag} the refused pack leaves no trace")
+        r.close()
+    finally:
+        shutil.rmtree(d, ignore_errors=True)
+
+
+def checks(tier):
+    q = ("quick", "thorough")
+    return _b04g(tier) + [
+        KCheck("C04g.inflate_bomb", h_inflate_bomb, parts=[{"how": h} for h in ("lookup", "add_pack", "add_thin_pack")],
+               encoded=["dulwich.pack.read_zlib_chunks_at", "dulwich.pack.read_zlib_chunks", "dulwich.pack.unpack_object/unpack_object_at",
+                        "dulwich.object_store.DiskObjectStore.add_pack/add_thin_pack"],
+               bounds="a blob entry declaring 0, 1 or 100 bytes whose deflate stream inflates to 1, 16 or 48 MiB, looked up in an "
+                      "installed pack or ingested through add_pack / add_thin_pack; peak Python heap (tracemalloc) below 6 MiB",
+               outside="allocations outside the Python heap; other entry points (bundles, loose objects)", tiers=q),
+    ]
